@@ -104,6 +104,12 @@ impl Pki {
         }
         let c1 = make_leaf(&cca, "client.local", "client good", true);
         let c2 = make_leaf(&ca_b, "client.local", "client other", true);
+        // a second client CA (what the CA file is rewritten to hold in the rotation scripts) and a client under it
+        let cca2 = make_ca("verif client CA 2");
+        std::fs::write(d.join("clientca2.pem"), &cca2.2).unwrap();
+        let c5 = make_leaf(&cca2, "client.local", "client under the second CA", true);
+        std::fs::write(d.join("cli5.pem"), &c5.0).unwrap();
+        std::fs::write(d.join("cli5.key"), &c5.1).unwrap();
         // a good client certificate over an Ed25519 key
         let c4 = make_leaf_with(&cca, "client.local", "client good ed25519", true, KeyPair::generate_for(&rcgen::PKCS_ED25519).unwrap());
         for (i, c) in [(1, c1), (2, c2), (4, c4)] {
@@ -207,7 +213,8 @@ struct Server {
 
 async fn start_server(pki: &Pki, tag: &str, cert: u64, ca: bool) -> Server {
     let d = pki.d();
-    let (certp, keyp, cap) = (p(d, &format!("live-{tag}.pem")), p(d, &format!("live-{tag}.key")), p(d, "clientca.pem"));
+    let (certp, keyp, cap) = (p(d, &format!("live-{tag}.pem")), p(d, &format!("live-{tag}.key")), p(d, &format!("live-{tag}-ca.pem")));
+    std::fs::copy(d.join("clientca.pem"), &cap).unwrap();
     std::fs::copy(d.join(format!("srv{cert}.pem")), &certp).unwrap();
     std::fs::copy(d.join(format!("srv{cert}.key")), &keyp).unwrap();
     let identity = make_tls_identity(&certp, &keyp, if ca { Some(&cap) } else { None }).await.expect("identity");
@@ -267,6 +274,10 @@ async fn reload_case(pki: &Pki, tag: &str, c: &[u64]) -> Vec<u64> {
             }
             1 if i + 3 < c.len() => {
                 let (good, cert, ca) = (c[i + 1] != 0, c[i + 2], c[i + 3] != 0);
+                // ca 2: the CA file is rewritten in place to hold another CA before the reload (1: the first CA again)
+                if c[i + 3] != 0 {
+                    std::fs::copy(d.join(if c[i + 3] == 2 { "clientca2.pem" } else { "clientca.pem" }), &srv.ca).unwrap();
+                }
                 i += 4;
                 if good {
                     std::fs::copy(d.join(format!("srv{cert}.pem")), &srv.cert).unwrap();
@@ -279,6 +290,26 @@ async fn reload_case(pki: &Pki, tag: &str, c: &[u64]) -> Vec<u64> {
                     ca_now = ca;
                 }
                 out.push(u64::from(r.is_ok()));
+            }
+            4 if i + 1 < c.len() => {
+                // a new client presenting no certificate (0), the good one (1) or one under the second CA (2)
+                let k = c[i + 1];
+                i += 2;
+                let (cc, ck) = match k {
+                    0 => (None, None),
+                    1 => (Some(ccert.clone()), Some(ckey.clone())),
+                    _ => (Some(p(d, "cli5.pem")), Some(p(d, "cli5.key"))),
+                };
+                let mut res = vec![0];
+                if let Ok(tcp) = TcpStream::connect(("127.0.0.1", srv.port)).await {
+                    if let Ok(mut s) = tls_connect(tcp, "localhost", cc.as_deref(), ck.as_deref(), None, true).await {
+                        let seen = s.get_ref().1.peer_certificates().and_then(|v| v.first()).map_or(9, |der| pki.seen(der.as_ref()));
+                        if http_roundtrip(&mut s, true).await {
+                            res = vec![1, seen];
+                        }
+                    }
+                }
+                out.extend(res);
             }
             3 if i + 1 < c.len() => {
                 // a returning client: one persistent client configuration (made by the real make_client_config,
@@ -555,6 +586,14 @@ pub fn generate(a: &Args, out: &mut Out) {
             }
         }
     }
+    // the client CA file rewritten in place and the identity reloaded: the old CA's clients are out, the new CA's are in
+    for c in [
+        vec![17u64, 2, 0, 1, 4, 1, 4, 2, 1, 1, 0, 2, 4, 1, 4, 2, 4, 0, 0, 1, 1, 3, 1, 4, 1, 4, 2, 0],
+        vec![17, 2, 3, 1, 0, 1, 1, 1, 2, 4, 2, 4, 1, 3, 0, 1, 1, 1, 0, 4, 0, 4, 1, 4, 2],
+    ] {
+        let r = ctx.run_case(&c[1..]);
+        out.emit(&c, &r);
+    }
     // returning clients across reloads: certificate replaced; client CA switched on; client CA switched off
     for c in [
         vec![17u64, 2, 0, 0, 3, 0, 3, 1, 1, 1, 1, 0, 3, 0, 3, 1, 1, 1, 2, 1, 3, 0, 3, 1],
@@ -573,8 +612,9 @@ pub fn generate(a: &Args, out: &mut Out) {
                     c.push(0);
                     conns += 1;
                 }
-                10 | 11 => c.extend([3, rng.below(2)]),
-                4..=6 => c.extend([1, u64::from(!rng.chance(1, 5)), rng.below(6), rng.below(2)]),
+                10 => c.extend([3, rng.below(2)]),
+                11 => c.extend([4, rng.below(3)]),
+                4..=6 => c.extend([1, u64::from(!rng.chance(1, 5)), rng.below(6), rng.below(3)]),
                 _ => c.extend([2, if conns > 0 && !rng.chance(1, 8) { rng.below(conns) } else { conns + rng.below(2) }]),
             }
         }
